@@ -79,6 +79,16 @@ func (e *ordEval) evalInt(x ast.Expr) int64 {
 			return a - b
 		case token.ADD:
 			return a + b
+		case token.MUL:
+			return a * b
+		case token.REM:
+			if b != 0 {
+				return a % b
+			}
+		case token.QUO:
+			if b != 0 {
+				return a / b
+			}
 		}
 	case *ast.CallExpr:
 		if tv, ok := e.info.Types[v.Fun]; ok && tv.IsType() && len(v.Args) == 1 {
